@@ -149,8 +149,25 @@ Proof.
   split; [vm_compute; reflexivity|]. split; vm_compute; reflexivity.
 Qed.
 
-(* ---------- the guard rejects the capture witness and the call-to-main witness ---------- *)
-Example guard_rejects_capture_witness : prog_guard capture_witness = false.
-Proof. vm_compute. reflexivity. Qed.
+(* ---------- the capture witness: inside the guard since the repair <commitcap>; the call-to-main witness:
+   outside ---------- *)
+Example guard_accepts_capture_witness :
+  prog_guard capture_witness = true /\ NoDup (map fdname (fcpdefs capture_witness)) /\
+  existsb (fun d => negb (nocap (fdbody d))) (fcpdefs capture_witness) = true /\
+  shadowing_risk_prog capture_witness = true.
+Proof.
+  split; [vm_compute; reflexivity|]. split; [repeat constructor; simpl; intuition discriminate|].
+  split; vm_compute; reflexivity.
+Qed.
+(* by the THEOREM (not by evaluation): every final source run of the capture witness is reproduced by the
+   Core machine on its translation *)
+Lemma capture_witness_simulated : forall (args : list Z) (n : nat) (o : obs),
+  run_fun n capture_witness args = o -> final o ->
+  exists m, run_core m (compiled_or_empty capture_witness) args = o.
+Proof.
+  intros args n o Hr Hf.
+  exact (fun2core_correct_fragment_lemma capture_witness _ args n o (proj1 capture_witness_fixed_lemma)
+           (proj1 (proj2 guard_accepts_capture_witness)) (proj1 guard_accepts_capture_witness) Hr Hf).
+Qed.
 Example guard_rejects_call_main_witness : prog_guard call_main_witness = false.
 Proof. vm_compute. reflexivity. Qed.
